@@ -203,9 +203,34 @@ def check(src, rep):
     if len(init_writes) != 1:
         rep.violation("R3", f"{MOD}.SmartMeterBaseProtocol.__init__", "selection-in-constructor", "a reader is selected in the constructor, before it has produced a valid message: its messages are forwarded "
                       "without the selection pass (invalid messages before the first valid one reach the queue)", file, init_writes[-1].lineno if init_writes else B.node.lineno)
-    cand = [a for a, v in B.field_inits.items() if isinstance(v, ast.Call) and isinstance(v.func, ast.Name) and v.func.id == "list"]
-    rep.require(len(cand) == 1, "cannot bind the candidate list field")
+    # the candidate field: iterated by data_received (or a helper) and filled by the constructor from one of its parameters
+    iterated = {n.iter.attr for name in reach for n in ast.walk(B.methods[name].node)
+                if isinstance(n, (ast.For, ast.comprehension)) and isinstance(n.iter, ast.Attribute) and isinstance(n.iter.value, ast.Name) and n.iter.value.id == "self"}
+    try:
+        init_paths = [p for p in Engine(M, split_ifexp=True).run(init_fn) if p.status in ("run", "return")] if init_fn else []
+    except Exception as ex_:  # Unsupported
+        raise Undecided(f"SmartMeterBaseProtocol.__init__ outside the analysed subset: {ex_}")
+
+    def _mentions_param(sv):
+        return isinstance(sv, tuple) and ((len(sv) == 2 and sv[0] == "p") or any(_mentions_param(x) for x in sv if isinstance(x, tuple)))
+    cand = sorted({k[2] for p in init_paths for k, v in p.store.items() if k[0] == "f" and k[1] == SELF and k[2] in iterated and _mentions_param(v)})
+    rep.require(len(cand) == 1, f"cannot bind the candidate list field (fields iterated by data_received and filled from a constructor parameter: {cand})")
     CAND = cand[0]
+    # ownership: the protocol works on its own copy -- it empties the list when a reader is selected, so an aliased caller list would lose its readers
+    # for the next protocol instance built from it (connection factories keep one list)
+    mutated = any(isinstance(n, ast.Call) and isinstance(n.func, ast.Attribute) and n.func.attr in ("clear", "pop", "remove", "append", "extend", "insert", "sort", "reverse")
+                  and isinstance(n.func.value, ast.Attribute) and n.func.value.attr == CAND for name in B.methods for n in ast.walk(B.methods[name].node)) or \
+        any(isinstance(n, ast.Delete) and any(isinstance(t, ast.Subscript) and isinstance(t.value, ast.Attribute) and t.value.attr == CAND for t in n.targets) for name in B.methods for n in ast.walk(B.methods[name].node))
+    own_bad = None
+    for p in init_paths:
+        v = strip_epoch(p.store.get(("f", SELF, CAND), ("c", None)))
+        fresh = (v[0] == "call" and v[1] in ("list", "tuple", "sorted", ".copy", "copy", "deque") ) or v[0] in ("tuple", "gen", "slice", "opaque", "mut")
+        if not fresh and v[0] == "p":
+            own_bad = (v, p)
+    if own_bad is not None and mutated:
+        rep.violation("R4", f"{MOD}.SmartMeterBaseProtocol.__init__", "candidates-aliased", "the protocol keeps the caller's candidate list itself (no copy) and later modifies it: once a reader is selected the caller's list is "
+                      "emptied, so the next protocol created from the same list (a reconnect through the connection factory) has no candidates and forwards nothing", file, init_fn.node.lineno,
+                      witness="; ".join(("" if pol else "not ") + show_sv(g)[:60] for g, pol, _ in own_bad[1].guards) or "unconditionally")
     E = Engine(M, no_inline={"message_received"}, keep_props={"is_valid"})
     W = Walker(E, dr)
     loops = []
